@@ -613,6 +613,73 @@ def run_many_known(n, via):
     return viol
 
 
+def run_relearn(first_replace, second_replace, third):
+    """an interface name not declared locally is learnt from a peer's XML;
+    later a peer describes the name differently (a service was upgraded):
+    parsed with replacement it is the new definition that comes back and is
+    known from then on, without replacement the one learnt first"""
+    from txdbus import interface as I, introspection as X
+    viol = []
+    with fakes.KnownInterfaces():
+        try:
+            def xml_of(*members):
+                ifc = I.DBusInterface('org.ex.Up', *members, noRegister=True)
+                return X.generateIntrospectionXML(
+                    '/o', {'/o': make_object([ifc])}), describe(ifc)
+            x1, d1 = xml_of(I.Method('M', 's', 'u'), I.Signal('S', 'i'))
+            x2, d2 = xml_of(I.Method('M', 'ss', ''), I.Method('N', '', 's'),
+                            I.Property('P', 'u'))
+            x3, d3 = xml_of(I.Method('Q', 'a{sv}', 'v'))
+
+            def parse(x, replace):
+                got = [i for i in X.getInterfacesFromXML(x, replace)
+                       if i.name == 'org.ex.Up']
+                return describe(got[0]) if len(got) == 1 else \
+                    '%d interfaces' % len(got)
+            steps = [(x1, d1, first_replace), (x2, d2, second_replace)]
+            if third is not None:
+                steps.append((x3, d3, third))
+            current = None
+            for n, (x, d, replace) in enumerate(steps):
+                want = d if (replace or current is None) else current
+                got = parse(x, replace)
+                if got != want:
+                    viol.append(('relearn/%s' % ('stale' if replace
+                                                 else 'replaced-unasked'),
+                                 'definitions of org.ex.Up offered one '
+                                 'after the other with replace flags %r: '
+                                 'step %d gave %r, expected %r'
+                                 % ([s_[2] for s_ in steps], n, got, want)))
+                    break
+                current = want
+                known = I.DBusInterface.knownInterfaces.get('org.ex.Up')
+                if known is None or describe(known) != current:
+                    viol.append(('relearn/registry',
+                                 'after step %d (flags %r) the known '
+                                 'definition of org.ex.Up is %r, expected %r'
+                                 % (n, [s_[2] for s_ in steps],
+                                    known and describe(known), current)))
+                    break
+        except Exception as e:
+            viol.append(('relearn/raises-%s' % type(e).__name__, '%r' % (e,)))
+    return viol
+
+
+def _task_relearn(_):
+    res = core.Result()
+    for a in (False, True):
+        for b in (False, True):
+            for c in (None, False, True):
+                res.count('states')
+                res.count('transitions', 3)
+                res.count('evaluations', 3)
+                res.count('nontrivial')
+                for t, w in run_relearn(a, b, c):
+                    res.violation('%s/%s' % (PROP, t), w,
+                                  {'relearn': [a, b, c]}, size=3)
+    return res
+
+
 def _task_many_known(task):
     n, via = task
     res = core.Result()
@@ -649,7 +716,9 @@ def run(ctx):
         'over adding / re-declaring / deleting methods, signals and '
         'properties, with the XML generated and parsed after every step. A '
         'three-level class hierarchy (each level adding an interface) and a '
-        'plain DBusObject introspected in all 24 orders. A process knowing '
+        'plain DBusObject introspected in all 24 orders. A name learnt from '
+        'a peer and then described differently twice, every combination of '
+        'replacement flags. A process knowing '
         'many interfaces: 127..8193 (thorough 65537) others declared or '
         'learnt from peers after a local declaration, which must still win '
         'without replacement'
@@ -662,6 +731,7 @@ def run(ctx):
     ctx.map(_task_incremental, [(ctx.quick, i, n) for i in range(n)])
     ctx.map(_task_hierarchy, [ctx.quick])
     ctx.map(_task_names, [ctx.quick])
+    ctx.map(_task_relearn, [0])
     from mcx import scale
     ns = scale.ladder(8193 if ctx.quick else 65537)
     ctx.map(_task_many_known, [(k, 'declared') for k in ns]
@@ -671,6 +741,9 @@ def run(ctx):
 
 def replay(data):
     res = core.Result()
+    if 'relearn' in data:
+        return [('%s/%s' % (PROP, t), w) for t, w in
+                run_relearn(*data['relearn'])]
     if 'many_known' in data:
         return [('%s/%s' % (PROP, t), w) for t, w in
                 run_many_known(*data['many_known'])]
